@@ -52,6 +52,9 @@ func lemmaVC(P *Program, prop string) (*VC, error) {
 	vc.entry = vc.newState()
 	env := &Env{vc: vc, st: vc.entry, old: vc.entry, vars: map[string]Term{}, pkg: P.logPkg.Types}
 	for _, ax := range P.spec.Axioms {
+		if ax.Label != "" {
+			continue
+		}
 		s, err := env.boolean(ax.Expr)
 		if err != nil {
 			return nil, fmt.Errorf("axiom: %v", err)
